@@ -1,4 +1,5 @@
 import SurfModel.Protocol
+import SurfModel.Payload
 import SurfProofs.Lemmas.Sgr
 import SurfProofs.Lemmas.ReMatch
 /-! Basic lemmas for C04: slices of framed byte strings, splitting at separators, decimal parameters, and
